@@ -166,6 +166,9 @@ def run(ctx: Ctx) -> Result:
     from . import _redis
     _redis.run_seq(ctx, res, "c03r", {"C01"}, "death", 120, 2500, ctx.rng("death"))
     _redis.finish_cuts(ctx, res)
+    _redis.consume_cuts(ctx, res)
+    from . import _rabbit
+    _rabbit.consume_cuts(ctx, res)
     seen, uniq = set(), []
     for f in res.failures:
         if f.kind not in seen:
